@@ -35,7 +35,8 @@ RULE = ("Hypothesis-generated cases of three kinds. conv (75%): magnitude (int/r
     "base-unit families / base families only, optional rad/percent factor), one inequivalent target, a rational "
     "factor k; oracle = hand-typed exact SI factors. eval (15%): expression trees (depth<=4) over 1-3 quantities, "
     "raw units, 2 symbols, rationals with add/mul/pow/neg/sin, oracle = mpmath interpretation of the JSON tree at "
-    "60 digits. celsius (10%): temperatures in [-1e4,1e4] (ints and floats), prefixed-kelvin quantities. "
+    "60 digits. celsius (10%): temperatures in [-1e4,1e4] (ints and floats), prefixed-kelvin quantities, and one Celsius object "
+    "converted, set to a second generated temperature through its public value attribute and converted again. "
     "Non-trivial = (conv) source or a target contains a derived or prefixed unit and the magnitude is not 0 or 1; "
     "(eval) at least one quantity/unit leaf with a derived or prefixed unit and magnitude not in {0,1}, and at "
     "least one symbol; (celsius) temperature not in {0,1} (a prefixed kelvin unit is always involved). "
@@ -149,7 +150,10 @@ def celsius_case(draw: Any) -> dict[str, Any]:
         st.floats(min_value=-1e4, max_value=1e4, allow_nan=False).map(_float_repr)))
     pre = draw(st.sampled_from(["S:milli", "S:kilo", "P:milli", "P:kilo", "R:milli", "R:kilo", "S:micro", "P:mega",
         "S:centi", "R:hecto"]))
-    return {"kind": "celsius", "x": x, "prefix": pre}
+    # a second temperature the SAME Celsius object is set to (its public `value` attribute) after a first conversion
+    x2 = draw(st.one_of(st.integers(-300, 3000).map(lambda n: ["int", n]),
+        st.floats(min_value=-1e4, max_value=1e4, allow_nan=False).map(_float_repr)))
+    return {"kind": "celsius", "x": x, "prefix": pre, "x2": x2}
 
 
 @st.composite
@@ -651,6 +655,28 @@ def judge_celsius(case: dict[str, Any]) -> tuple[list[tuple[str, str]], list[str
         if not near(back, xm):
             out.append(("celsius:dimension-keyword-quantity", f"from_kelvin_quantity(Quantity({sympy.N(xm + off, 17)}, "
                 f"dimension=temperature)).value = {back!r}, expected {x!r}"))
+        # one Celsius object over its history: converted, set to another temperature through its public attribute,
+        # converted again - every conversion reflects the temperature the object holds at that moment
+        if case.get("x2") is not None:
+            y = mag_lib(case["x2"])
+            ym = mag_model(case["x2"])
+            tol = sympy.Rational(1, 10**9) * (abs(ym) + abs(xm) + off)
+            c = Celsius(x)
+            first = (to_kelvin(c), convert_to_si(to_kelvin_quantity(c)))
+            if not near(first[0], xm + off) or not near(first[1], xm + off):
+                out.append(("celsius:history-first", f"one object Celsius({x!r}): to_kelvin {first[0]!r}, to_kelvin_quantity {first[1]}"))
+            c.value = y
+            labels.append("celsius:reassigned")
+            k = to_kelvin(c)
+            q = to_kelvin_quantity(c)
+            si = convert_to_si(q)
+            if not near(k, ym + off) or not near(si, ym + off):
+                out.append(("celsius:history-reassigned", f"c = Celsius({x!r}) converted, then c.value = {y!r}: to_kelvin(c) = {k!r}, "
+                    f"to_kelvin_quantity(c) = {si} K, expected {y!r} + 273.15"))
+            back = from_kelvin_quantity(to_kelvin_quantity(c)).value
+            if not near(back, ym):
+                out.append(("celsius:history-roundtrip", f"c = Celsius({x!r}) converted, then c.value = {y!r}: "
+                    f"from_kelvin_quantity(to_kelvin_quantity(c)).value = {back!r}"))
     except Exception as exc:  # pylint: disable=broad-except
         out.append(("celsius:exception:" + type(exc).__name__, f"Celsius helpers raised {_exc(exc)} for x={x!r}"))
     return out, labels
